@@ -261,14 +261,19 @@ def coq_eval(mod, prop, cases, outs, tag='cases', shard=None):
     """Evaluate the model on the cases and compare with implementation outputs."""
     streams = {}
     skipped = 0
+    enc_errors = []
     for i, (c, o) in enumerate(zip(cases, outs)):
-        t = mod.coq_case(c, o)
+        try:
+            t = mod.coq_case(c, o)
+        except Exception as e:     # an output that cannot be written as a model case: reported, never a crash of the check
+            enc_errors.append('case %d could not be encoded for the model: %s: %s' % (i, type(e).__name__, e))
+            continue
         if t is None:
             skipped += 1
             continue
         name = mod.stream_of(c) if hasattr(mod, 'stream_of') else 'main'
         streams.setdefault(name, []).append((i, t[0], t[1]))
-    n, bad, errors = 0, [], []
+    n, bad, errors = 0, [], list(enc_errors[:3])
     for name, triples in streams.items():
         if hasattr(mod, 'COQ_STREAMS'):
             header, runner, ctype, shd = mod.COQ_STREAMS[name]
@@ -369,7 +374,11 @@ def run_check(prop, tier, seed):
     for i, (c, o) in enumerate(zip(cases, outs)):
         if unusable(o):
             continue
-        msg = mod.oracle(c, o)
+        try:
+            msg = mod.oracle(c, o)
+        except Exception as e:     # an output the oracle cannot read is a departure in itself, never a crash of the check
+            herr.append((i, 'statement oracle could not read the output of this case: %s: %s' % (type(e).__name__, e)))
+            continue
         if msg:
             oracle_fail.append((i, msg))
 
